@@ -285,3 +285,238 @@ def memo_rule(rc, prefixes):
                 rc.fail(f, node, f"{f.qual}: the cached value depends on parameter(s) {missing} that are not part of the cache key `{norm(node.targets[0].slice)}`: "
                         f"a later call with another value is answered from the first call's cache", construct=f"{f.qual} memo key misses {missing}")
     rc.ob(f"{n} compute-if-absent memo site(s) under {list(prefixes)}")
+
+
+# -------------------------------------------------------------------------------------------------
+# value-keyed containers of factors
+_FACTOR_COLLECTION_CALLS = ("get_factors", "get_cpds")
+_FACTOR_RETURNING = ("factor_product", "factor_divide", "factor_sum_product", "to_factor", "DiscreteFactor", "TabularCPD", "identity_factor")
+_FACTOR_METHODS = ("reduce", "marginalize", "maximize", "normalize", "product", "divide", "sum", "copy")
+
+
+class FactorTypes:
+    """Which names / expressions of one function denote factor objects, lists of factors, or 'tagged' working sets of (factor, tag)
+    tuples.  Function-level names are inferred flow-insensitively from for-loops and assignments; comprehension variables are scoped
+    to their comprehension.  `index_mode`: in inference engines `self.factors` is a dict node -> list of factors (iterating it yields
+    nodes); in model classes it is the list of factors itself."""
+
+    def __init__(self, fn: ast.AST, index_mode: bool):
+        self.fn = fn
+        self.index_mode = index_mode
+        self.facs: Set[str] = set()
+        self.lists: Set[str] = set()
+        self.tagged: Set[str] = set()
+        self._comp_nodes = {id(g.target) for c in ast.walk(fn) if isinstance(c, (ast.ListComp, ast.SetComp, ast.DictComp, ast.GeneratorExp)) for g in c.generators}
+        self._infer()
+
+    # -- classification of expressions under a local environment of comprehension-bound factor names
+    def is_collection(self, e, env=frozenset()) -> bool:
+        if isinstance(e, ast.Name):
+            return e.id in self.lists
+        if isinstance(e, ast.Attribute) and e.attr == "cpds":
+            return True
+        if isinstance(e, ast.Attribute) and e.attr == "factors":
+            return not self.index_mode
+        if isinstance(e, ast.Subscript) and isinstance(e.value, ast.Attribute) and e.value.attr == "factors":
+            return self.index_mode
+        if isinstance(e, ast.Call):
+            nm = call_name(e)
+            if nm in _FACTOR_COLLECTION_CALLS and not e.args and not e.keywords:
+                return True
+            if nm in ("list", "tuple", "sorted", "reversed", "iter") and e.args:
+                return self.is_collection(e.args[0], env)
+            if nm == "chain" and e.args:
+                return any(self.is_collection(a.value if isinstance(a, ast.Starred) else a, env) for a in e.args)
+        if isinstance(e, (ast.ListComp, ast.GeneratorExp)):
+            return self.is_factor(e.elt, self.comp_env(e, env))
+        return False
+
+    def is_tagged(self, e) -> bool:
+        if isinstance(e, ast.Name):
+            return e.id in self.tagged
+        if isinstance(e, ast.Subscript):
+            return self.is_tagged(e.value)
+        if isinstance(e, ast.Call) and call_name(e) in ("values", "list", "set", "copy") and isinstance(e.func, ast.Attribute):
+            return self.is_tagged(e.func.value)
+        return False
+
+    def is_factor(self, e, env=frozenset()) -> bool:
+        if isinstance(e, ast.Name):
+            return e.id in env or (e.id in self.facs)
+        if isinstance(e, ast.Call):
+            nm = call_name(e)
+            if nm in _FACTOR_RETURNING:
+                return True
+            if nm in _FACTOR_METHODS and isinstance(e.func, ast.Attribute) and self.is_factor(e.func.value, env):
+                ip = kwarg(e, "inplace")
+                return nm == "copy" or (isinstance(ip, ast.Constant) and ip.value is False)
+            if isinstance(e.func, ast.Call) and call_name(e.func) == "getattr" and e.func.args and self.is_factor(e.func.args[0], env):
+                ip = kwarg(e, "inplace")
+                return isinstance(ip, ast.Constant) and ip.value is False
+        if isinstance(e, ast.BinOp) and isinstance(e.op, (ast.Mult, ast.Div)):
+            return self.is_factor(e.left, env) or self.is_factor(e.right, env)
+        if isinstance(e, ast.Subscript) and isinstance(e.value, ast.Name) and e.value.id in self.lists and not isinstance(e.slice, ast.Slice):
+            return True
+        return False
+
+    def _bound(self, target, it, env):
+        """names bound to factors by `for target in it`"""
+        out = set()
+        if isinstance(target, ast.Name) and self.is_collection(it, env):
+            out.add(target.id)
+        if isinstance(target, ast.Tuple) and len(target.elts) == 2 and isinstance(it, ast.Call) and call_name(it) == "enumerate" and it.args and self.is_collection(it.args[0], env) \
+                and isinstance(target.elts[1], ast.Name):
+            out.add(target.elts[1].id)
+        if isinstance(target, ast.Tuple) and len(target.elts) == 2 and isinstance(target.elts[0], ast.Name) and self.is_tagged(it):
+            out.add(target.elts[0].id)
+        return out
+
+    def comp_env(self, comp, env=frozenset()):
+        env = set(env)
+        for g in comp.generators:
+            bound = self._bound(g.target, g.iter, env)
+            # a comprehension variable shadows a function-level factor name
+            for x in ast.walk(g.target):
+                if isinstance(x, ast.Name):
+                    env.discard(x.id)
+            env |= bound
+        # names rebound by the comprehension but not to factors hide function-level factor names
+        self._shadow = {x.id for g in comp.generators for x in ast.walk(g.target) if isinstance(x, ast.Name)} - env
+        return frozenset(env)
+
+    def is_factor_in_comp(self, e, comp) -> bool:
+        env = self.comp_env(comp)
+        shadow = set(self._shadow)
+        if isinstance(e, ast.Name) and e.id in shadow:
+            return False
+        return self.is_factor(e, env)
+
+    def _infer(self):
+        changed, rounds = True, 0
+        while changed and rounds < 8:
+            changed = False
+            rounds += 1
+            for n in ast.walk(self.fn):
+                if isinstance(n, ast.For):
+                    for nm in self._bound(n.target, n.iter, frozenset()):
+                        if nm not in self.facs:
+                            self.facs.add(nm); changed = True
+                elif isinstance(n, ast.Assign) and len(n.targets) == 1 and isinstance(n.targets[0], ast.Name):
+                    nm, v = n.targets[0].id, n.value
+                    if self.is_factor(v) and nm not in self.facs:
+                        self.facs.add(nm); changed = True
+                    if not isinstance(v, ast.Name) and self.is_collection(v) and nm not in self.lists:
+                        self.lists.add(nm); changed = True
+                    for c in ast.walk(v):
+                        if isinstance(c, ast.SetComp) and isinstance(c.elt, ast.Tuple) and c.elt.elts and self.is_factor_in_comp(c.elt.elts[0], c) and nm not in self.tagged:
+                            self.tagged.add(nm); changed = True
+                    if isinstance(v, ast.Call) and call_name(v) == "_get_working_factors" and nm not in self.tagged:
+                        self.tagged.add(nm); changed = True
+                elif isinstance(n, ast.Call) and call_name(n) == "add" and isinstance(n.func, ast.Attribute) and n.args and isinstance(n.args[0], ast.Tuple) and n.args[0].elts \
+                        and self.is_factor(n.args[0].elts[0]):
+                    base = n.func.value
+                    while isinstance(base, ast.Subscript):
+                        base = base.value
+                    if isinstance(base, ast.Name) and base.id not in self.tagged:
+                        self.tagged.add(base.id); changed = True
+        # a name that is ALSO bound to a non-factor by another for-loop is ambiguous: drop it (no verdict on it rather than a false alarm)
+        for n in ast.walk(self.fn):
+            if isinstance(n, ast.For) and isinstance(n.target, ast.Name) and n.target.id in self.facs and not self._bound(n.target, n.iter, frozenset()):
+                self.facs.discard(n.target.id)
+
+
+def value_keyed_factor_rule(rc, targets):
+    """No set / dict key / frozenset whose members are bare factor objects: DiscreteFactor hashes and compares by VALUE, so two equal
+    factors (two identical CPDs reduced alike, the same potential added twice) collapse into one and a product loses a term."""
+    repo = rc.repo
+    for rel, qual in targets:
+        f = repo.func(rel, qual)
+        ft = FactorTypes(f.node, index_mode=rel.startswith("pgmpy/inference/"))
+        hits = 0
+        set_names = {n.targets[0].id for n in ast.walk(f.node) if isinstance(n, ast.Assign) and len(n.targets) == 1 and isinstance(n.targets[0], ast.Name)
+                     and ((isinstance(n.value, ast.Call) and call_name(n.value) in ("set", "frozenset") and not n.value.args) or isinstance(n.value, (ast.Set, ast.SetComp)))}
+        for n in ast.walk(f.node):
+            what = None
+            if isinstance(n, ast.SetComp) and ft.is_factor_in_comp(n.elt, n):
+                what = f"set comprehension of bare factors `{norm(n, 90)}`"
+            elif isinstance(n, ast.Set) and any(ft.is_factor(x) for x in n.elts):
+                what = f"set display of factors `{norm(n, 90)}`"
+            elif isinstance(n, ast.Call) and isinstance(n.func, ast.Name) and n.func.id in ("set", "frozenset") and n.args and ft.is_collection(n.args[0]):
+                what = f"`{norm(n, 90)}` builds a set of factors"
+            elif isinstance(n, ast.Call) and call_name(n) == "add" and isinstance(n.func, ast.Attribute) and n.args and ft.is_factor(n.args[0]):
+                base = n.func.value
+                while isinstance(base, ast.Subscript):
+                    base = base.value
+                if isinstance(base, ast.Name) and (base.id in set_names or base.id in ft.tagged):
+                    what = f"`{norm(n, 90)}` adds a bare factor to a set"
+            elif isinstance(n, ast.DictComp) and ft.is_factor_in_comp(n.key, n):
+                what = f"dict keyed by factors `{norm(n, 90)}`"
+            elif isinstance(n, ast.Assign) and isinstance(n.targets[0], ast.Subscript) and ft.is_factor(n.targets[0].slice) and not isinstance(n.targets[0].value, ast.Attribute):
+                what = f"`{norm(n.targets[0], 90)}`: mapping keyed by a factor"
+            if what:
+                hits += 1
+                rc.fail(f, n, f"{qual}: {what}: DiscreteFactor hashes and compares by VALUE, so equal factors are merged and counted once", construct=f"{qual} value-keyed factors: {norm(n, 70)}")
+        rc.ob(f"{qual}: factor-valued names {sorted(ft.facs)}, factor lists {sorted(ft.lists)}, tagged working sets {sorted(ft.tagged)}; value-keyed containers of bare factors: {hits}")
+
+
+# -------------------------------------------------------------------------------------------------
+# layout fields of factor objects written from outside the factor classes
+_LAYOUT_FIELDS = ("values", "variables", "cardinality")
+_ELEMENTWISE = ("exp", "log", "log2", "abs", "sqrt", "power", "square", "nan_to_num", "clip", "astype", "copy", "float", "maximum", "minimum")
+
+
+def _elementwise_of(v, base: str) -> bool:
+    """is v an element-by-element function of `<base>.values` (and scalars) — i.e. does it keep the axis layout?"""
+    if isinstance(v, ast.Constant):
+        return True
+    if isinstance(v, ast.Name):
+        return True  # a scalar or an array prepared elsewhere: no verdict from here
+    if isinstance(v, ast.Attribute):
+        return norm(v) == f"{base}.values"
+    if isinstance(v, ast.BinOp):
+        return _elementwise_of(v.left, base) and _elementwise_of(v.right, base)
+    if isinstance(v, ast.UnaryOp):
+        return _elementwise_of(v.operand, base)
+    if isinstance(v, ast.Call) and call_name(v) in _ELEMENTWISE:
+        args = list(v.args) + ([v.func.value] if isinstance(v.func, ast.Attribute) and dotted(v.func.value) not in ("np", "numpy", "compat_fns", "torch", "math") else [])
+        return all(_elementwise_of(a, base) for a in args)
+    return False
+
+
+def external_layout_rule(rc, prefixes):
+    """Outside pgmpy/factors/, code that re-arranges a factor's axes (assigns .variables / .cardinality, or assigns .values with anything but
+    an element-wise function of the old values) must update all three of variables, cardinality and values of that object together:
+    they are one layout (the decoder of arg-max indices, reduce, marginalize and product all read them as one)."""
+    repo = rc.repo
+    n_fn = n_w = 0
+    for f in repo.all_functions():
+        if f.file.startswith("pgmpy/factors/") or not f.file.startswith(tuple(prefixes)):
+            continue
+        n_fn += 1
+        writes: Dict[str, Dict[str, ast.AST]] = {}
+        for n in walk_no_nested(f.node):
+            tgts = []
+            if isinstance(n, ast.Assign):
+                for t in n.targets:
+                    tgts += list(t.elts) if isinstance(t, ast.Tuple) else [t]
+            elif isinstance(n, ast.AugAssign):
+                tgts = [n.target]
+            for t in tgts:
+                if isinstance(t, ast.Attribute) and t.attr in _LAYOUT_FIELDS and not (isinstance(t.value, ast.Name) and t.value.id == "self"):
+                    writes.setdefault(norm(t.value), {})[t.attr] = n
+        for base, flds in writes.items():
+            n_w += 1
+            layout_change = "variables" in flds or "cardinality" in flds
+            vn = flds.get("values")
+            if vn is not None and not layout_change:
+                v = vn.value
+                if isinstance(vn, ast.AugAssign):
+                    continue  # in-place arithmetic keeps the layout
+                if not _elementwise_of(v, base):
+                    layout_change = True
+            if layout_change and set(flds) != set(_LAYOUT_FIELDS):
+                missing = sorted(set(_LAYOUT_FIELDS) - set(flds))
+                first = sorted(flds.values(), key=lambda x: x.lineno)[0]
+                rc.fail(f, first, f"{f.qual} re-arranges the axes of `{base}` by assigning {sorted(flds)} but leaves {missing} as they were: variables, cardinality and values are "
+                        f"one layout — e.g. the arg-max decoder then reads the permuted table with the old radix", construct=f"{f.qual} partial layout write on {base}: {sorted(flds)}")
+    rc.ob(f"layout fields of factor objects written outside pgmpy/factors/: {n_w} object(s) in {n_fn} function(s); every axis re-arrangement updates variables, cardinality and values together")
